@@ -42,10 +42,11 @@ Theorem C13_cancelled_then_written_refuted :
 Proof. vm_compute. repeat split. Qed.
 Print Assumptions C13_cancelled_then_written_refuted.
 
-(* KNOWN FINDING (class write-acknowledged-at-shutdown): a local transaction feeds the
-   subscriptions from a task spawned after its commit; when the graceful shutdown drops the
-   handles before that task has run, the commit is one "after the handle is gone": outside
-   env_run, restored and not sound -- for either cancellation behaviour. *)
+(* Why the shutdown has to wait for everything that still feeds the subscriptions: a commit
+   whose candidates arrive "after the handle is gone" is outside env_run, restored and not
+   sound -- for either cancellation behaviour.  (A local transaction feeds the subscriptions
+   from a task spawned after its commit; the real shutdown dropped the handles without waiting
+   for it: found with stop mode T / realstop 2 and repaired, see KNOWN_FINDINGS.txt.) *)
 Theorem C13_write_after_handles_dropped_refuted : forall cr,
   let ops := [LCreate; LInitial; LWrite; LBatch; LTrip; LUnregister; LWrite; LDrainDone] in
   env_run cr s_init ops = false /\
